@@ -593,6 +593,9 @@ static void run_opt(long k, const params_t *p)
   /* dup */
   rc = ares_dup(&d, a);
   dump_channel(k, "C", rc, rc == ARES_SUCCESS ? d : NULL);
+  /* the socket function table (which carries the interface lookups) must be the source's */
+  if (rc == ARES_SUCCESS && d != NULL)
+    printf("%ld R C2 sf=%d\n", k, memcmp(&d->sock_funcs, &a->sock_funcs, sizeof(d->sock_funcs)) == 0 ? 1 : 0);
   if (d) ares_destroy(d);
 
   /* csv -> set -> csv on a fresh channel built from the same options, and on the channel itself */
